@@ -69,10 +69,9 @@ def main():
         r['in_dtype'] = str(a.dtype)
         key = jax.random.PRNGKey(it['key'])
         y, sh = wh.structured_rotation(a, key)
-        r.update(y=vals(y), y_dtype=str(np.asarray(y).dtype), y_shape=list(np.asarray(y).shape),
-                 rec_shape=[int(v) for v in np.asarray(sh)])
-        d = 1 << (max(len(it['x']), 1) - 1).bit_length()
-        r['signs'] = [int(v) for v in np.asarray(jax.random.rademacher(key, (d,)))]
+        r.update(y=vals(y), y_dtype=str(np.asarray(y).dtype), y_shape=list(np.asarray(y).shape))
+        # rotation of the all-ones array of the same shape: lets the parent recover the sign diagonal of this key
+        r['y_ones'] = vals(wh.structured_rotation(jnp.ones_like(a), key)[0])
         try:
           z = wh.inverse_structured_rotation(y, key, sh)
           r.update(z=vals(z), z_shape=list(np.asarray(z).shape), z_dtype=str(np.asarray(z).dtype))
